@@ -372,31 +372,14 @@ impl<K: Hash + Eq, KH: KeyHasher<K>> TinyLFU<K, KH> {
         K: Borrow<Q>,
         Q: Hash + Eq + ?Sized,
     {
+        // compare the real estimates (doorkeeper bit plus sketch minimum) of both keys
         let akh = self.hash_key(a);
-        let mut a_ctr = 0;
-        if !self.doorkeeper.contains(akh) {
-            let bkh = self.hash_key(b);
-            return if !self.doorkeeper.contains(bkh) {
-                (0, 0)
-            } else {
-                (0, 1)
-            };
-        } else {
-            a_ctr += 1;
-        }
-
         let bkh = self.hash_key(b);
-        let mut b_ctr = 0;
-        if !self.doorkeeper.contains(bkh) {
-            return (1, 0);
-        } else {
-            b_ctr += 1;
-        }
 
-        a_ctr += self.ctr.estimate(akh);
-        b_ctr += self.ctr.estimate(bkh);
-
-        (a_ctr, b_ctr)
+        (
+            self.estimate_hashed_key(akh),
+            self.estimate_hashed_key(bkh),
+        )
     }
 
     /// Returns the hash for the key
